@@ -7,7 +7,11 @@ package suites
 
 import (
 	"fmt"
+	"os"
+	"path/filepath"
 	"time"
+
+	"github.com/glowlabs-org/gca-backend/server"
 
 	"github.com/glowlabs-org/gca-backend/glow"
 	"verifharness/core"
@@ -128,9 +132,77 @@ func timeslotSuite(seed uint64, tier, outDir string) (*core.Result, error) {
 			return nil, err
 		}
 		res.Required = append(res.Required, "current.sandwich")
+		cadenceWitness(res)
 	}
 	res.Required = append(res.Required, "u2t.before", "u2t.boundary", "u2t.in-domain", "t2u.boundary", "t2u.in-domain")
 	res.Extra["genesis"] = G
 	res.Rule = "unix times at slot edges (k*300 + {-1,0,1,299}), random interior, before genesis, extremes; slots up to the no-overflow bound and beyond; a case is non-trivial when the conversion succeeds, distinct by (kind,input)"
 	return res, nil
+}
+
+// cadenceWitness replays the production rotation schedule on a simulated clock: the rotation thread wakes
+// every P = ReportMigrationFrequency and rotates (offset += shift) when now - offset > trigger; a report
+// for timeslot ts is acceptable at clock t when |ts - t| <= half and is stored only if ts < offset + window.
+// For every phase of the thread's wake-ups it looks for a clock value at which an acceptable report falls
+// beyond the window, and reports the first one (the concrete schedule is the replay).  The constants come
+// from the compiled binary and from the integer literals of the anchored function bodies, like the
+// generated obligation c20_cadence_inequality, which is the proof of the same fact for all schedules.
+func cadenceWitness(res *core.Result) {
+	repo := os.Getenv("VERIF_REPO")
+	if repo == "" {
+		repo = "/repo"
+	}
+	pick := func(file, fn, op string, nth int) (int64, bool) {
+		ls, err := funcLits(filepath.Join(repo, file), fn)
+		if err != nil {
+			return 0, false
+		}
+		k := 0
+		for _, l := range ls {
+			if l.op == op {
+				if k == nth {
+					return l.val, true
+				}
+				k++
+			}
+		}
+		return 0, false
+	}
+	trigger, ok1 := pick("server/equipment.go", "launchMigrateReports", ">", 0)
+	shift, ok2 := pick("server/equipment.go", "migrateReports", "+=", 0)
+	half, ok3 := pick("server/report_listener_udp.go", "managedHandleEquipmentReport", "+", 0)
+	window, ok4 := pick("server/report_listener_udp.go", "integrateReport", "+", 0)
+	if !(ok1 && ok2 && ok3 && ok4) || shift <= 0 {
+		return // the generated obligation c20_extraction_complete reports this
+	}
+	periodMs := server.VerifConsts()["ReportMigrationFrequencyMs"]
+	P := (periodMs + 299999) / 300000 // slots between two wake-ups, rounded up
+	if P < 1 {
+		P = 1
+	}
+	res.Count("cadence.simulated")
+	res.Extra["cadence"] = map[string]int64{"period_slots": P, "trigger": trigger, "shift": shift, "half_width": half, "window": window}
+	phases := P
+	if phases > 4096 {
+		phases = 4096
+	}
+	for ph := int64(0); ph < phases; ph++ {
+		phase := ph * P / phases
+		offset := int64(0)
+		next := phase
+		for t := int64(0); t < 6*shift+phase; t++ {
+			if t == next {
+				if t-offset > trigger {
+					offset += shift
+				}
+				next += P
+			}
+			if t+half >= offset+window {
+				res.Fail(fmt.Sprintf("production rotation cadence: the rotation thread wakes every %d timeslots (phase %d); at clock %d the window is still [%d, %d) and a report for timeslot %d, acceptable by the +-%d rule, falls outside it and is dropped (next wake-up at %d)",
+					P, phase, t, offset, offset+window, t+half, half, next), "c20-cadence-unsafe",
+					map[string]interface{}{"period_slots": P, "phase": phase, "clock": t, "offset": offset, "window": window, "timeslot": t + half, "trigger": trigger, "shift": shift})
+				return
+			}
+		}
+	}
 }
